@@ -1,5 +1,5 @@
 (* props/C03.v -- property C03: weights act as a pointwise multiplier of per-case scores before averaging. *)
-From V Require Import lib.Tree proofs.C01 proofs.C03.
+From V Require Import lib.Tree proofs.C01 proofs.C03 gen.Gen_weights.
 
 (* preserve_dims='all' with weights w equals w times the unweighted pointwise result *)
 Theorem C03_weights_pointwise : forall s w e,
@@ -52,3 +52,34 @@ Theorem C03_ratio_invariant : forall c a b : Q, 0 < c ->
   xdiv (xmul (XFin c) (XFin a)) (xmul (XFin c) (XFin b)) =x= xdiv (XFin a) (XFin b).
 Proof. exact ratio_scale_invariant. Qed.
 Print Assumptions C03_ratio_invariant.
+
+(* ---- the helper itself, regenerated from src/scores/functions.py on every run (translator site C03.aw) ---- *)
+(* apply_weights(values, weights=None) returns the values; with weights it is exactly one multiplication *)
+Theorem C03_code_apply_weights_none : forall v, gen_apply_weights v None = v.
+Proof. exact gen_apply_weights_none. Qed.
+Print Assumptions C03_code_apply_weights_none.
+
+Theorem C03_code_apply_weights_multiplies : forall v w, gen_apply_weights v (Some w) = xmul v w.
+Proof. exact gen_apply_weights_some. Qed.
+Print Assumptions C03_code_apply_weights_multiplies.
+
+(* the weighting functional of the theorems above is, cell by cell, the regenerated code *)
+Theorem C03_model_apply_weights_is_code : forall w s e,
+  lget (apply_weights w s) e = gen_apply_weights (lget s e) (option_map (fun a => lget a e) w).
+Proof. exact apply_weights_is_code. Qed.
+Print Assumptions C03_model_apply_weights_is_code.
+
+(* pointwise factorisation stated against the regenerated code *)
+Theorem C03_weights_pointwise_code : forall s w e,
+  lget (mean_score s (Some w) []) e =x= gen_apply_weights (lget (mean_score s None []) e) (Some (lget w e)).
+Proof. exact weights_pointwise_code. Qed.
+Print Assumptions C03_weights_pointwise_code.
+
+(* a NaN score or a NaN weight gives NaN; finite values give the rational product *)
+Theorem C03_code_apply_weights_nan : forall v w, v = XNaN \/ w = XNaN -> gen_apply_weights v (Some w) = XNaN.
+Proof. exact gen_apply_weights_nan. Qed.
+Print Assumptions C03_code_apply_weights_nan.
+
+Theorem C03_code_apply_weights_finite : forall a b, gen_apply_weights (XFin a) (Some (XFin b)) = XFin (a * b).
+Proof. exact gen_apply_weights_fin. Qed.
+Print Assumptions C03_code_apply_weights_finite.
